@@ -48,7 +48,7 @@ func (e *engine) Info() core.Info {
 		Real:  []string{"osm.ExtractXML / extract (pass loop, worker pool, channel, all mutex-guarded maps, processNode/Way/Relation, hasNeed*)", "osm.ExtractPBF over the same documents written by an independent PBF writer (one run in 25; paulmach/osm osmpbf decoder incl. its own, unsimulated, decoder goroutines)", "KeepTags / KeepBounds / KeepAll", "(*Data).Check, (*Data).Filter", "paulmach/osm osmxml.Scanner and encoding/xml", "golang.org/x/sync/errgroup", "real goroutines, real sync.RWMutex/Mutex and channel (only the choice of who runs is simulated)"},
 		Stubs: []string{"the io.ReadSeeker (simulated file: chunking, (0,nil) reads, injected read error, failing Seek, pass counting)", "the context (cancelled by the scheduler at a tape-chosen step)", "the worker count (tape-chosen 1-8 instead of GOMAXPROCS)", "the Go scheduler's choice of which goroutine runs next (token passing at the verif hooks)"},
 		FaultKinds: []string{
-			"reader-short-reads (legal)", "reader-zero-read (legal (0,nil), injected singly)", "reader-io-error at byte k of pass p", "seek-failure at pass p", "cancellation at scheduler step k", "worker-stall (a ready worker frozen for tens to thousands of steps)", "worker-starved",
+			"reader-short-reads (legal)", "reader-eof-with-data (legal: last bytes returned together with io.EOF)", "reader-zero-read (legal (0,nil), injected singly)", "reader-io-error at byte k of pass p", "seek-failure at pass p", "cancellation at scheduler step k", "worker-stall (a ready worker frozen for tens to thousands of steps)", "worker-starved",
 		},
 		StateMeasure:  "distinct (document, keep function) pairs among successful runs (each has one model result)",
 		SchedMeasure:  "distinct interleavings = distinct hashes of the sequence of tasks chosen at every scheduling decision",
@@ -145,6 +145,7 @@ var errEIO = errors.New("verif: injected read error")
 var errSeek = errors.New("verif: injected seek error")
 
 type simFile struct {
+	eofData  bool // the last bytes are returned together with io.EOF (legal)
 	data     []byte
 	pos      int
 	pass     int // number of times reading (re)started at offset 0
@@ -200,6 +201,10 @@ func (f *simFile) Read(p []byte) (int, error) {
 	f.pos += n
 	if f.pos > 0 {
 		f.counted = false
+	}
+	if f.eofData && f.pos == len(f.data) && !eio {
+		f.fired["reader-eof-with-data"]++
+		return n, io.EOF
 	}
 	return n, nil
 }
@@ -525,6 +530,7 @@ func (r *run) exec() {
 	switch r.class {
 	case 3:
 		f.chunk = []int{1, 7, 64, 1 + t.Choose(200, "chunk")}[t.Choose(4, "chunk-kind")]
+		f.eofData = t.Bool("eof-with-data")
 	case 4:
 		f.zeroAt = 1 + t.Choose(40, "zero-at")
 		f.chunk = 16
